@@ -1466,3 +1466,78 @@ func (c *Ctx) rulesR4qdone() {
 	c.check(len(writesOfFieldIn(pw, fDone)) > 0, "C06.qdone", "ProcessWhenQueue records the processed tick", pw.Pos(), "ProcessWhenQueue does not store queueTickDone")
 	c.check(len(readsOfFieldIn(sw, fDone)) > 0, "C06.qdone", "Subscriptions.WhenQueue consults the processed tick", sw.Pos(), "Subscriptions.WhenQueue does not read queueTickDone: a subscription made after ProcessWhenQueue ran for that tick waits for the next transition")
 }
+
+// rulesR4histsib: C17.sib
+func (c *Ctx) rulesR4histsib() {
+	c.rule("C17.sib", "the four history trackers (in-memory, bbolt, badger, gorm) agree on what the Called / Changed lists mean: in every tracer.TransitionEnd a constant is assigned to the match decision inside the list loops only for a state that IS in the transition's called (changed) set (under slices.Contains(...) == true: listed && Exclude -> false, listed && !Exclude -> true). A backend that decides on a state that is not listed records the complement of what the in-memory tracker records for the same configuration")
+	n := 0
+	nf := 0
+	for _, f := range c.Funcs {
+		if f.Parent() != nil || f.Name() != "TransitionEnd" || f.Pkg == nil {
+			continue
+		}
+		rel := relPkg(f.Pkg.Pkg.Path())
+		if rel != ph && !strings.HasPrefix(rel, ph+"/") {
+			continue
+		}
+		found := false
+		k0 := n
+		for _, b := range f.Blocks {
+			for _, ins := range b.Instrs {
+				phi, ok := ins.(*ssa.Phi)
+				if !ok || phi.Comment != "match" {
+					continue
+				}
+				for i, e := range phi.Edges {
+					k, ok := e.(*ssa.Const)
+					if !ok || i >= len(b.Preds) {
+						continue
+					}
+					if _, isBool := constBool(k); !isBool {
+						continue
+					}
+					p := b.Preds[i]
+					gs := guardsOf(p)
+					if len(p.Instrs) > 0 {
+						if ifi, ok := p.Instrs[len(p.Instrs)-1].(*ssa.If); ok {
+							for si, s := range p.Succs {
+								if s == b {
+									gs = append(gs, Guard{Cond: ifi.Cond, Pol: si == 0, If: ifi})
+								}
+							}
+						}
+					}
+					// only decisions made inside a list loop (a Contains test dominates them in either polarity)
+					var pol *bool
+					for _, g0 := range gs {
+						g := expandGuard(g0)[0]
+						if call, ok := g.Cond.(*ssa.Call); ok && calleeName(&call.Call) == "Contains" {
+							v := g.Pol
+							pol = &v
+						}
+					}
+					if pol == nil {
+						continue
+					}
+					found = true
+					n++
+					val, _ := constBool(k)
+					pos := phi.Pos()
+					for _, g0 := range gs {
+						if g0.If != nil && g0.If.Pos().IsValid() {
+							pos = g0.If.Pos()
+						}
+					}
+					c.check(*pol, "C17.sib", fmt.Sprintf("%s: match=%v#%d is decided for a listed state", funcKey(f), val, n-k0), pos,
+						fmt.Sprintf("match is set to %v for a configured state that is NOT in the transition's called/changed set: the opposite of the in-memory tracker", val))
+				}
+			}
+		}
+		if found {
+			nf++
+		}
+	}
+	if nf < 4 || n < 12 {
+		c.undecided(fmt.Sprintf("C17.sib: %d trackers / %d list decisions recognised (expected 4 / >= 12)", nf, n))
+	}
+}
